@@ -22,6 +22,9 @@ def main():
         elif prop in ("C05", "C09", "C17"):
             from . import c_ms_reader
             rc = c_ms_reader.run(prop, a.tier, seed)
+        elif prop in ("C10", "C16"):
+            from . import c_ms_session
+            rc = c_ms_session.run(prop, a.tier, seed)
         else:
             print("MACHINERY-FAILURE unknown property %s" % prop)
             rc = 2
